@@ -163,8 +163,6 @@ def one_case(ctx, index: int, rng: random.Random):
 
     int_result = (dtype is None and not w_is_float) or (dtype is not None and np.dtype(dtype).kind in "iu")
     gapped = pairs is not None and not gen.is_consecutive_pairs(pairs)
-    if gapped and int_result:
-        mechanism = "1d.gap.int_dtype.nan_missed"
 
     flat = np.asarray(data, dtype=float)
     wflat = None if wts is None else np.asarray(wts)
